@@ -822,7 +822,50 @@ def check_rule(ctx, parts, mode):
         ctx.violation('occurrences', inp, f'{text!r}: rrulestr gives {a[:5]}..., the caller\'s rule gives {b[:5]}...')
 
 
+def check_decode_is_fresh(ctx):
+    """decoding returns a rule of its own: editing the value lists of one decoded rule must not change what
+    decoding the same (or another) text returns, nor how an already decoded rule is encoded"""
+    from icalendar.prop import vRecur
+    texts = ['FREQ=WEEKLY;COUNT=10;BYDAY=MO,WE', 'FREQ=MONTHLY;BYMONTHDAY=1,15;INTERVAL=2', 'FREQ=YEARLY;BYMONTH=5;BYDAY=-1SU',
+             'FREQ=DAILY;UNTIL=20301231T000000Z']
+    for t in texts:
+        ctx.evaluated(('fresh-decode', t))
+        try:
+            canonical = vRecur.from_ical(t).to_ical().decode()     # the canonical part order of this text
+            r1 = vRecur.from_ical(t)
+            other = vRecur.from_ical(t)
+            snap = {k: list(v) if isinstance(v, list) else v for k, v in other.items()}
+            for k, v in list(r1.items()):
+                if isinstance(v, list):
+                    v.append(v[0])
+                    v[0] = v[-1]
+                    if k in ('COUNT', 'INTERVAL'):
+                        v[0] = 99
+            r2 = vRecur.from_ical(t)
+            got = {k: list(v) if isinstance(v, list) else v for k, v in r2.items()}
+            if got != snap:
+                ctx.violation('shared-state', {'text': t}, f'decoding {t!r} again gives {got!r} after another decoded copy was edited; expected {snap!r}')
+            if other.to_ical().decode() != canonical:
+                ctx.violation('shared-state', {'text': t}, f'a decoded rule encodes as {other.to_ical()!r} after another decoded copy was edited; expected {canonical!r}')
+        except Exception as e:  # noqa: BLE001
+            ctx.violation('shared-state', {'text': t}, f'{type(e).__name__}: {e}')
+    # encoding one rule does not change how another one is encoded (leap month vs plain month and the like)
+    from icalendar.prop import vMonth
+    ctx.evaluated(('encode-independent',))
+    seq = [({'FREQ': ['YEARLY'], 'BYMONTH': [5]}, 'FREQ=YEARLY;BYMONTH=5'), ({'FREQ': ['YEARLY'], 'BYMONTH': [vMonth('5L')]}, 'FREQ=YEARLY;BYMONTH=5L'),
+           ({'FREQ': ['YEARLY'], 'BYMONTH': [vMonth('7L')]}, 'FREQ=YEARLY;BYMONTH=7L'), ({'FREQ': ['YEARLY'], 'BYMONTH': [7]}, 'FREQ=YEARLY;BYMONTH=7'),
+           ({'FREQ': ['DAILY'], 'BYHOUR': [0]}, 'FREQ=DAILY;BYHOUR=0'), ({'FREQ': ['DAILY'], 'BYHOUR': [False]}, None)]
+    for parts, want in seq:
+        try:
+            got = vRecur(parts).to_ical().decode()
+        except Exception as e:  # noqa: BLE001
+            got = f'<{type(e).__name__}>'
+        if want is not None and got != want:
+            ctx.violation('encode-depends-on-history', {'parts': repr(parts)}, f'encoded as {got!r} after earlier encodings in this process, expected {want!r}')
+
+
 def oracle(ctx):
+    check_decode_is_fresh(ctx)
     n = 0
     for parts in all_rules(ctx):
         n += 1
